@@ -87,7 +87,7 @@ CHECKS = {
     },
     "C14": {
         "explanation": "Workers: one worker body run from an arbitrary valid state (queue <= 2, any count/target): FIFO exactly-once execution, reply delivery and exit accounting; one Call racing its worker under every interleaving (T=12).",
-        "quick": [seq("Harness_C14_worker_drain"), sched("Harness_C14_call_single_1", 12, unwind_fn="Call=1,worker=1", timeout_ms=300000)],
+        "quick": [seq("Harness_C14_worker_drain"), sched("Harness_C14_call_single_1", 12, unwind_fn="Call=1,worker=1", timeout_ms=300000), sched("Harness_C14_wait_recheck", 12)],
         "thorough": [],
         "assumptions": ["two or more concurrent callers under full interleaving are outside the encoder's reach"],
     },
